@@ -234,6 +234,7 @@ def run(ctx):
     long_documents(ctx)
     smart_quotes(ctx)
     detwingle(ctx)
+    from props import c19_r4; c19_r4.extra(ctx)      # round 4: call spellings
     ctx.extra_cov["exhaustive"] = True
     ctx.extra_cov["exhaustive_scope"] = "smart-quote sweep 32x4x3 (x2 contexts); all scalar values through detwingle"
 
